@@ -17,19 +17,51 @@ IT = 'flax/nnx/transforms/iteration.py'
 SC = 'flax/core/scope.py'
 
 
+def _pad_target(test, names_var, index):
+  """For `while <test>: v.append(None)`: 'exact' when the loop stops at len(v) == index, 'off' when it provably stops elsewhere, None if unknown."""
+  if not (isinstance(test, ast.Compare) and len(test.ops) == 1):
+    return None
+  l, r, op = test.left, test.comparators[0], test.ops[0]
+  flip = {ast.Lt: ast.Gt, ast.Gt: ast.Lt, ast.LtE: ast.GtE, ast.GtE: ast.LtE}
+  if astu.src(r) == 'len(%s)' % names_var and type(op) in flip:
+    l, r, op = r, l, flip[type(op)]()
+  if astu.src(l) != 'len(%s)' % names_var:
+    return None
+  off = None
+  if astu.src(r) == index:
+    off = 0
+  elif isinstance(r, ast.BinOp) and isinstance(r.op, (ast.Add, ast.Sub)) and astu.src(r.left) == index and isinstance(r.right, ast.Constant) and isinstance(r.right.value, int):
+    off = r.right.value if isinstance(r.op, ast.Add) else -r.right.value
+  if off is None:
+    return None
+  if isinstance(op, ast.Lt):
+    stop = off        # loop ends when len == index + off
+  elif isinstance(op, ast.LtE):
+    stop = off + 1
+  else:
+    return None
+  return 'exact' if stop == 0 else 'off'
+
+
 def _insert_shape(f, names_var, index='index'):
-  """`while len(v) < index: v.append(None)` then `v.insert(index, NAME)`; returns the inserted expr or None."""
+  """`while len(v) < index: v.append(None)` then `v.insert(index, NAME)`; returns the inserted expr, the string 'off-by-one'
+  when the padding loop is located but stops at another length, or None (not recognised)."""
   whiles = [n for n in astu.body_walk(f.node) if isinstance(n, ast.While)]
   ins = [x for x in astu.func_calls(f) if astu.src(x.func) == '%s.insert' % names_var]
   if len(whiles) != 1 or len(ins) != 1:
     return None
   w = whiles[0]
-  if astu.src(w.test) != 'len(%s) < %s' % (names_var, index) or [astu.src(s) for s in w.body if isinstance(s, ast.Expr) and isinstance(s.value, ast.Call)] != ['%s.append(None)' % names_var] or any(isinstance(s, (ast.Break, ast.Return, ast.Continue)) for s in w.body):
+  if [astu.src(s) for s in w.body if isinstance(s, ast.Expr) and isinstance(s.value, ast.Call)] != ['%s.append(None)' % names_var] or any(isinstance(s, (ast.Break, ast.Return, ast.Continue)) for s in w.body):
+    return None
+  tgt = _pad_target(w.test, names_var, index)
+  if tgt is None:
     return None
   if astu.src(ins[0].args[0]) != index:
     return None
   if ins[0].lineno < w.lineno:
     return None
+  if tgt == 'off':
+    return 'off-by-one'
   return ins[0].args[1]
 
 
@@ -68,12 +100,15 @@ def r1(R, repo):
   add, rem = mod.func('Partitioned.add_axis'), mod.func('Partitioned.remove_axis')
   ins = _insert_shape(add, 'names')
   nm = types.single_def(add.node, 'axis_name')
+  off = ins == 'off-by-one'
+  ins = None if off else ins
   ok = ins is not None and astu.src(ins) == 'axis_name' and astu.src(nm) == 'self._get_partition_name(params)' and astu.src(types.single_def(add.node, 'names')) == 'list(self.names)'
   rets = [n for n in astu.body_walk(add.node) if isinstance(n, ast.Return)]
   ok = ok and len(rets) == 1 and astu.src(rets[0].value) == 'self.replace(names=tuple(names))'
   pos_ins = [x for x in astu.func_calls(add) if astu.src(x.func) in ('names.insert', 'names.append', 'names.extend') and x.args and 'axis_name' in astu.src(x)]
   bad_pos = [x for x in pos_ins if astu.call_tail(x) != 'insert' or astu.src(x.args[0]) != 'index']
-  R.judge(ok or bool(bad_pos), ok, key_of(add, 'pad with None up to index, insert the partition name at index'), add, 'Partitioned.add_axis must pad names with None up to `index`, insert the partition name at `index` and return a copy with tuple(names)')
+  R.judge(ok or bool(bad_pos) or off, ok, key_of(add, 'pad with None up to index, insert the partition name at index'), add, 'Partitioned.add_axis must pad names with None up to `index`, insert the partition name at `index` and return a copy with tuple(names)' + (
+      ' (the padding loop stops at a length other than `index`: a spurious None, or a missing one, shifts every later axis name)' if off else ''))
   src = astu.src(rem.node)
   ok = 'assert names.pop(index) == axis_name' in src and 'self.replace(names=tuple(names))' in src and 'axis_name = self._get_partition_name(params)' in src
   pops = [x for x in astu.func_calls(rem) if astu.src(x.func) == 'names.pop']
@@ -83,7 +118,7 @@ def r1(R, repo):
   ns = repo.mod(NS)
   fa, fr = ns.func('add_axis.insert_field'), ns.func('remove_axis.remove_field')
   ins = _insert_shape(fa, 'iterable')
-  R.check(ins is not None and astu.src(ins) == astu.params(fa.node)[2] and 'return tuple(iterable)' in astu.src(fa.node), key_of(fa, 'pad with None, insert value at index'), fa, 'insert_field must pad with None up to index and insert the value at index')
+  R.judge(ins is not None, ins is not None and ins != 'off-by-one' and astu.src(ins) == astu.params(fa.node)[2] and 'return tuple(iterable)' in astu.src(fa.node), key_of(fa, 'pad with None, insert value at index'), fa, 'insert_field must pad with None up to index and insert the value at index')
   R.check('assert iterable.pop(index) == value' in astu.src(fr.node) and 'return tuple(iterable)' in astu.src(fr.node), key_of(fr, 'pop(index) must be the value'), fr, 'remove_field must pop the entry at index and assert it is the expected name')
   for q, field_fn in (('add_axis._add_axis', 'insert_field'), ('remove_axis._remove_axis', 'remove_field')):
     f = ns.func(q)
